@@ -154,12 +154,36 @@ const NAME_PARTS: [&str; 30] = ["p--q", "m--", "a", "b", "word", "x1", "A_b", "g
     "Z", "q7", "_", "k9", "long", "naïve", "ß"];
 
 thread_local! { static ASCII_ONLY: std::cell::Cell<bool> = std::cell::Cell::new(false); static NODES: std::cell::Cell<usize> = std::cell::Cell::new(0);
-    static EXOTIC: std::cell::Cell<bool> = std::cell::Cell::new(false); }
+    static EXOTIC: std::cell::Cell<bool> = std::cell::Cell::new(false);
+    // relations inside one value: names and whole sub-terms generated earlier in the same value are reused now and then
+    static USED_NAMES: std::cell::RefCell<Vec<(String, bool)>> = std::cell::RefCell::new(vec![]);
+    static USED_TERMS: std::cell::RefCell<Vec<(serde_json::Value, bool)>> = std::cell::RefCell::new(vec![]); }
 
 fn rand_name(fmt: &str, rng: &mut StdRng) -> (String, bool) {
+    if rng.gen_bool(0.25) {
+        if let Some(x) = USED_NAMES.with(|u| u.borrow().choose(rng).cloned()) {
+            return x;
+        }
+    }
+    let r = rand_name_fresh(fmt, rng);
+    USED_NAMES.with(|u| u.borrow_mut().push(r.clone()));
+    r
+}
+
+fn rand_name_fresh(fmt: &str, rng: &mut StdRng) -> (String, bool) {
     let f = enum_format(fmt);
     let ascii_only = ASCII_ONLY.with(|c| c.get());
     loop {
+        // rarely a very long name, at lengths around the usual buffer and counter sizes
+        if rng.gen_bool(0.001) {
+            let n = *[127usize, 128, 255, 256, 257].choose(rng).unwrap();
+            let s: String = (0..n).map(|i| if i % 7 == 3 { 'b' } else { 'a' }).collect();
+            return (s, true);
+        }
+        if rng.gen_bool(0.03) {
+            // a name that reads like a number (the text of an interval, of a truth value, of a stamp)
+            return ((*["7", "42", "007", "0", "1", "18446744073709551615", "05"].choose(rng).unwrap()).to_string(), true);
+        }
         let n_parts = *[1usize, 1, 1, 2, 2, 3, 5, 12, 30].choose(rng).unwrap();
         let mut s = String::new();
         for i in 0..n_parts {
@@ -172,10 +196,22 @@ fn rand_name(fmt: &str, rng: &mut StdRng) -> (String, bool) {
         if rng.gen_bool(0.1) {
             s = format!("{}{}", rng.gen_range(0..100000u32), s);
         }
-        let exotic = !ascii_only && rng.gen_bool(0.03);
+        let exotic = !ascii_only && rng.gen_bool(0.06);
         if exotic {
             EXOTIC.with(|c| c.set(true));
-            s.push_str(["\u{1d4b3}", "\u{1f600}", "\u{20000}", "\u{e0100}"].choose(rng).unwrap());
+            match rng.gen_range(0..3) {
+                0 => s.push_str(["\u{1d4b3}", "\u{1f600}", "\u{20000}", "\u{e0100}"].choose(rng).unwrap()),
+                // characters whose UTF-8 bytes look like something else when read bytewise (0x85 NEL, 0xA0 NBSP, 0xAD, 0xC2 ...)
+                1 => s.push_str(["Ņ", "à", "充", "Ⅰ", "ㅠ", "ａ", "­x", "\u{a0a0}", "\u{2160}\u{2160}", "\u{5145}\u{3160}", "İ", "ǅ", "ß", "ﬁ", "\u{0345}a", "e\u{301}"].choose(rng).unwrap()),
+                // one to three arbitrary alphanumeric scalar values
+                _ => for _ in 0..rng.gen_range(1..=3) {
+                    for _try in 0..50 {
+                        if let Some(c) = char::from_u32(rng.gen_range(0x80..0x30000u32)) {
+                            if c.is_alphanumeric() { s.push(c); break; }
+                        }
+                    }
+                },
+            }
         }
         // well-formed by C01's definition, for this format
         let prefixes = [f.atom.prefix_placeholder, f.atom.prefix_variable_independent, f.atom.prefix_variable_dependent, f.atom.prefix_variable_query,
@@ -190,23 +226,43 @@ fn rand_name(fmt: &str, rng: &mut StdRng) -> (String, bool) {
 }
 
 fn rand_unit(rng: &mut StdRng) -> String {
-    let x: f64 = match rng.gen_range(0..8) {
+    let x: f64 = match rng.gen_range(0..10) {
         0 => 0.0,
         1 => 1.0,
         2 => rng.gen::<f64>(),
         3 => (rng.gen_range(0..=1000u32) as f64) / 1000.0,
         4 => 10f64.powi(-rng.gen_range(1..300)),
         5 => 1.0 - 2f64.powi(-rng.gen_range(1..53)),
-        6 => f64::from_bits(rng.gen_range(1..0x3ff0_0000_0000_0000u64)),
+        6 => *[f64::from_bits(1), f64::MIN_POSITIVE, f64::from_bits(0x000f_ffff_ffff_ffff), 0.1 + 0.2, 1.0 - f64::EPSILON / 2.0, f64::EPSILON, 0.5, 0.49999999999999994]
+            .choose(rng).unwrap(),
+        8 => f64::from_bits(rng.gen_range(1..0x3ff0_0000_0000_0000u64)),
         _ => (rng.gen_range(0..=100u32) as f64) / 100.0,
     };
     x.to_string()
 }
 
 fn rand_term(fmt: &str, rng: &mut StdRng, depth: usize, ascii_safe: &mut bool) -> serde_json::Value {
+    if rng.gen_bool(0.08) {
+        if let Some((t, safe)) = USED_TERMS.with(|u| u.borrow().choose(rng).cloned()) {
+            *ascii_safe &= safe;
+            return t;
+        }
+    }
+    let mut safe = true;
+    let t = rand_term_fresh(fmt, rng, depth, &mut safe);
+    *ascii_safe &= safe;
+    if t.to_string().len() < 400 {
+        USED_TERMS.with(|u| u.borrow_mut().push((t.clone(), safe)));
+    }
+    t
+}
+
+fn rand_term_fresh(fmt: &str, rng: &mut StdRng, depth: usize, ascii_safe: &mut bool) -> serde_json::Value {
     let atom = |rng: &mut StdRng, ascii_safe: &mut bool| -> serde_json::Value {
         match rng.gen_range(0..9) {
-            0 => json!({"k":"Interval","n": match rng.gen_range(0..4) { 0 => rng.gen_range(0..100u64).to_string(), 1 => u64::MAX.to_string(), 2 => rng.gen::<u64>().to_string(), _ => rng.gen::<u32>().to_string() }}),
+            0 => json!({"k":"Interval","n": match rng.gen_range(0..5) { 0 => rng.gen_range(0..100u64).to_string(), 1 => u64::MAX.to_string(), 2 => rng.gen::<u64>().to_string(),
+                3 => { let b = *[8u32, 16, 24, 31, 32, 53, 63, 64].choose(rng).unwrap(); let p = if b == 64 { u64::MAX } else { 1u64 << b }; [p.wrapping_sub(1), p, p.saturating_add(1)].choose(rng).unwrap().to_string() }
+                _ => rng.gen::<u32>().to_string() }}),
             k => {
                 let (n, safe) = rand_name(fmt, rng);
                 *ascii_safe &= safe;
@@ -248,6 +304,8 @@ fn rand_value(fmt: &str, rng: &mut StdRng) -> (serde_json::Value, bool) {
     ASCII_ONLY.with(|c| c.set(rng.gen_bool(0.4)));
     NODES.with(|c| c.set(0));
     EXOTIC.with(|c| c.set(false));
+    USED_NAMES.with(|u| u.borrow_mut().clear());
+    USED_TERMS.with(|u| u.borrow_mut().clear());
     let depth = *[0usize, 1, 2, 2, 3, 3, 4, 6].choose(rng).unwrap();
     let t = rand_term(fmt, rng, depth, &mut safe);
     let v = match rng.gen_range(0..3) {
@@ -256,7 +314,8 @@ fn rand_value(fmt: &str, rng: &mut StdRng) -> (serde_json::Value, bool) {
             let p = ["Judgement", "Goal", "Question", "Quest"][rng.gen_range(0..4)];
             let st = match rng.gen_range(0..6) {
                 0 => json!({"k":"Eternal"}), 1 => json!({"k":"Past"}), 2 => json!({"k":"Present"}), 3 => json!({"k":"Future"}),
-                4 => json!({"k":"Fixed","n": rng.gen::<i64>().to_string()}),
+                4 => json!({"k":"Fixed","n": if rng.gen_bool(0.3) { let b = *[31u32, 32, 53, 63].choose(rng).unwrap(); let p = if b == 63 { i64::MAX } else { 1i64 << b };
+                        let x = *[p - 1, p, p.saturating_add(1)].choose(rng).unwrap(); (if rng.gen_bool(0.5) { x } else { x.wrapping_neg() }).to_string() } else { rng.gen::<i64>().to_string() }}),
                 _ => json!({"k":"Fixed","n": rng.gen_range(-1000..1000i64).to_string()}),
             };
             let tr: Vec<String> = if p == "Question" || p == "Quest" { vec![] } else { (0..rng.gen_range(0..=2)).map(|_| rand_unit(rng)).collect() };
@@ -283,6 +342,23 @@ pub fn drive(kind: &str, seed: u64, count: usize, out: &str) {
         }
         "values" => {
             // seeded random well-formed enum values (names from a rich pool, random floats / stamps / intervals, depth up to 6)
+            // a fixed handful of very large values per format (sizes around 2^7, 2^8, 2^10, 2^12), whatever the count
+            for fmt in FORMATS {
+                let atom = |i: usize| json!({"k":"Word","n":format!("w{i}")});
+                let long = |n: usize| -> String { (0..n).map(|i| if i % 7 == 3 { 'b' } else { 'a' }).collect() };
+                let big = [
+                    json!({"k":"SetExtension","s":(0..257).map(atom).collect::<Vec<_>>()}),
+                    json!({"k":"Product","q":(0..1025).map(atom).collect::<Vec<_>>()}),
+                    json!({"k":"Inheritance","a":{"k":"Conjunction","s":(0..129).map(atom).collect::<Vec<_>>()},"b":{"k":"ImageExtension","i":128,"q":(0..128).map(atom).collect::<Vec<_>>()}}),
+                    json!({"k":"Similarity","a":{"k":"Word","n":long(256)},"b":{"k":"VariableDependent","n":long(1000)}}),
+                    json!({"k":"Negation","a":{"k":"Operator","n":long(4097)}}),
+                ];
+                for (k, t) in big.iter().enumerate() {
+                    let v = if k % 2 == 0 { json!({"kind":"term","v":t}) } else {
+                        json!({"kind":"task","v":{"b":["0.5","0.75"],"s":{"t":t,"p":"Judgement","st":{"k":"Fixed","n":"-9007199254740993"},"tr":["1","0.9"]}}}) };
+                    writeln!(w, "{}", json!({"fmt":fmt,"v":v,"ascii_safe":true,"rand":true,"exotic":true,"huge":true})).unwrap();
+                }
+            }
             for i in 0..count {
                 let fmt = FORMATS[i % 3];
                 let (v, safe) = rand_value(fmt, &mut rng);
